@@ -1130,6 +1130,7 @@ func (vc *VC) execInstr(act *Act, st *State, ins ssa.Instruction) {
 		p := vc.val(act, i.X).(PtrV)
 		stt := i.X.Type().Underlying().(*types.Pointer).Elem().Underlying().(*types.Struct)
 		vc.nilCheck(act, st, p, i.Pos(), "fieldaddr")
+		vc.noteImmRef(i.X.Type().Underlying().(*types.Pointer).Elem(), fieldOffset(stt, i.Field), p.ref)
 		act.env[i] = PtrV{p.ref, add(p.idx, fieldOffset(stt, i.Field))}
 	case *ssa.Field:
 		sv := vc.val(act, i.X).(StructV)
